@@ -19,6 +19,7 @@ namespace BitSerializer
 		{
 			if constexpr (TArchive::IsLoading())
 			{
+				value = cont.test(i);
 				Serialize(archive, value);
 				cont.set(i, value);
 			}
